@@ -345,7 +345,10 @@ def run(F, R, tier):
             continue
         b = bs_[0]
         reads = [n for n in b["_nodes"] if n.get("k") == "Field" and n["field"] == "re_exports"]
-        filt = [n for n in b["_nodes"] if n.get("k") == "MethodCall" and n["name"] in ("filter", "filter_map", "skip", "take", "skip_while", "take_while", "step_by") and not (n["name"] == "filter_map" and False)]
+        filt = [n for n in b["_nodes"] if n.get("k") == "MethodCall" and n["name"] in ("filter", "skip", "take", "skip_while", "take_while", "step_by")]
+        # a filter_map that merely projects a fallible accessor (`as_str()`) is the flat_map it replaces;
+        # one that decides (if / match / comparison / then) filters
+        filt += [n for n in b["_nodes"] if n.get("k") == "MethodCall" and n["name"] == "filter_map" and any(y.get("k") in ("If", "Match") or (y.get("k") == "Binary" and y["op"] in ("==", "!=", "<", ">", "<=", ">=", "&&", "||")) or (y.get("k") == "MethodCall" and y["name"] in ("then", "then_some", "filter")) for a_ in n["args"] for y in walk(a_))]
         R.ob("C16-c", "%s hands out every star re-export" % fn.split("::")[-1], len(reads) >= 1 and not filt,
              "%s drops some of the module's `export * from` statements (`%s`): names forwarded by them vanish from the resolved export set and definitions behind them become unresolved" % (fn.split("::")[-1], expr_text(filt[0])[:50] if filt else "no read of re_exports"), where(filt[0]) if filt else b["file"])
 
